@@ -113,8 +113,11 @@ func main() {
 			err = corr.SubRegVsSweep(d, res, *seed, "loss")
 		}
 	case "C09":
-		res.Rule = "bodies generated from a JSON-RPC grammar and its mutations; distinct = distinct (kind, canonical reply, invocation list); non-trivial = a handler ran, or the reply has more than one token, or status != 200"
+		res.Rule = "bodies generated from a JSON-RPC grammar and its mutations; plus request frames from the same grammar sent one at a time over a raw WebSocket connection (response frames on the wire and handler invocations compared with the model's execFrame/wsCall); distinct = distinct (kind, canonical reply, invocation list); non-trivial = a handler ran, or the reply has more than one token, or status != 200"
 		err = c09.Run(d, res, *seed, n(4000, 80000), corpus)
+		if err == nil {
+			err = c09.RunWS(d, res, *seed, n(400, 6000), corpus)
+		}
 	case "C12":
 		res.Rule = "exhaustive: 6 formatters x 8 registration sets x 4 alias tables x every candidate method string x param variants, plus client/server agreement per configuration; distinct = distinct (formatter, registrations, aliases, method, variant); non-trivial = resolves to a handler or a handler ran"
 		if *replay != "" {
